@@ -1,4 +1,5 @@
 import OrdModel.Proofs.IndexInslocExample
+import OrdModel.Proofs.IndexLiftInsChain
 /-!
 # C04 — Inscriptions are never duplicated or dropped
 
@@ -7,19 +8,21 @@ and the executable oracle: `OrdModel/Index/OracleInsloc.lean`; lemmas:
 `OrdModel/Proofs/IndexInsloc*.lean`.
 
 What is proved here is the invariant's **oracle form** (the predicate evaluated on the
-implementation's dump after every block is exactly `InsPartitioned`) and its **per-transaction
+implementation's dump after every block is exactly `InsPartitioned`), its **per-transaction
 preservation step** for `index_inscriptions` at full strength (any inputs, any envelopes, any
-flotsam, coinbase or not).  The lift to every reachable state
+flotsam, coinbase or not), and the **lift to every reachable state** of the full index model
+(`Index/Run.lean`: `run`, `Reachable`): `c04_reachable`, `c04_reachable_count`
+(lemmas: `OrdModel/Proofs/IndexLiftIns*.lean`).
 
-    theorem c04_reachable (cfg blocks st) (hvalid : ValidChain cfg blocks)
-        (h : run cfg blocks = .ok st) :
-        InsPartitioned cfg st ∧ st.entries.length = (blocks.map blockEnvelopes).sum
-
-is NOT proved: it additionally needs (i) `takeInputEntries` moves the spent entries' lists out of
-cache/table unchanged, (ii) the cache insertion of the new outputs does not overwrite an entry
-(hypothesis: no duplicate txid of an unspent inscribed output, BIP-30), (iii) `flushCache` /
-`UtxoEntry.merged` concatenate, and rebuild `seq2sp` consistently, (iv) every block starts with
-a coinbase (so the saved flotsam is flushed: `c04_coinbase_flushes_saved`).
+Chain hypotheses of the lift (`InsLift.InsChain`): pairwise distinct non-zero txids and no spend
+of the null / unbound outpoint outside a block's first transaction (C12's `ChainCond`; BIP-30 —
+necessary: a duplicate txid overwrites a cache entry and drops its inscriptions), every block
+starts with a coinbase (first input null: the saved flotsam is flushed,
+`c04_coinbase_flushes_saved`), and block heights never decrease (so no block below the first
+inscription height is indexed after inscriptions exist).  The counting clause additionally needs
+`InsLift.EnvChain`: envelope lists in input order naming existing inputs (what the real parser
+produces; checked on every generated transaction by `ix.oracle.envwf`) and all inputs of a
+block's first transaction null.
 -/
 namespace Ord.Index.Insloc
 open Ord Ord.Index
@@ -103,5 +106,80 @@ satisfiable, with the expected lists. -/
 example : exResult.isOk = true ∧ exCheck = true := ⟨exResult_ok, exCheck_true⟩
 
 example : envelopeInputsWF 2 [0, 0, 1] = true ∧ envelopeInputsWF 2 [1, 0] = false := by decide
+
+/-! ## Every reachable state -/
+
+/-- **C04 on every reachable state.**  For every configuration and every chain satisfying
+`InsChain` (distinct non-zero txids, no special-outpoint spend outside a block's first
+transaction, every block starts with a coinbase, heights never decrease), the index content after
+the chain — if indexing succeeds — satisfies `InsPartitioned`: every inscription ever created
+(sequence numbers `0 … n-1`) is listed by exactly one output / the null pseudo-output / the
+unbound pseudo-output exactly once, `seq2sp` and the output lists say the same thing, and offsets
+on real outputs are below the output's value. -/
+theorem c04_reachable (cfg : Cfg) (chain : List Block) (st : State) (evs : List Event)
+    (hc : InsLift.InsChain chain) (h : run cfg chain = .ok (st, evs)) :
+    InsPartitioned cfg st :=
+  (InsLift.run_chainInv cfg chain st evs hc.ok h).1.part
+
+/-- the same for `Reachable` states, the chain being the witness -/
+theorem c04_reachable_state (cfg : Cfg) (st : State)
+    (h : ∃ chain evs, InsLift.InsChain chain ∧ run cfg chain = .ok (st, evs)) :
+    InsPartitioned cfg st := by
+  obtain ⟨chain, evs, hc, hr⟩ := h
+  exact c04_reachable cfg chain st evs hc hr
+
+/-- **Nothing dropped, nothing invented (count).**  Under `InsChain` and `EnvChain`, the number
+of inscriptions after the chain is the number of envelopes of the non-first transactions of the
+blocks indexed with the inscription pass on (height ≥ first inscription height, inscription index
+enabled): `chainCount cfg chain = Σ_b (if insOn b then blockEnvelopes b else 0)`. -/
+theorem c04_reachable_count (cfg : Cfg) (chain : List Block) (st : State) (evs : List Event)
+    (hc : InsLift.InsChain chain) (he : InsLift.EnvChain chain) (h : run cfg chain = .ok (st, evs)) :
+    st.entries.length = InsLift.chainCount cfg chain :=
+  InsLift.run_count cfg chain st evs (InsLift.blockCount_of hc he) h
+
+/-- Besides `InsPartitioned`, reachable states have duplicate-free `utxo` / `seq2sp` keys (the
+association lists are finite maps), so "listed by exactly one output" is about the table, not
+about a shadowed row. -/
+theorem c04_reachable_tables (cfg : Cfg) (chain : List Block) (st : State) (evs : List Event)
+    (hc : InsLift.InsChain chain) (h : run cfg chain = .ok (st, evs)) :
+    (AL.keys st.utxo).Nodup ∧ (AL.keys st.seq2sp).Nodup :=
+  let i := (InsLift.run_chainInv cfg chain st evs hc.ok h).1
+  ⟨i.tinv.nodup, i.seqKeys⟩
+
+/-! Non-vacuity of the lift: an inscription revealed in block 1 (output `3:0`), moved in block 2
+(to `5:0`) and spent to fees in block 3 (the coinbase pays out less than the subsidy, so it lands
+on the null outpoint).  The chain satisfies `InsChain` and `EnvChain`, indexing succeeds, and one
+inscription exists at the end. -/
+
+def lcCfg : Cfg :=
+  { indexSats := true, indexAddresses := true, indexTransactions := false, indexInscriptions := true, indexRunes := false, firstInscriptionHeight := 1, jubileeHeight := 0, firstRuneHeight := 0 }
+def lcCbIn : TxIn := { prev := OutPoint.null, taproot := false, confHeight := none, pushes := [] }
+def lcOut (v : Nat) : TxOut := { value := v, opReturn := false, script := [1] }
+def lcCb (txid : Txid) (v : Nat) : Tx := { txid := txid, inputs := [lcCbIn], outputs := [lcOut v], envelopes := [], artifact := none, size := 0 }
+def lcEnv : Envelope :=
+  { input := 0, offset := 0, unrecognizedEven := false, duplicateField := false, incompleteField := false, pushnum := false, stutter := false, hidden := false, gallery := false, pointerField := false, pointer := none, parents := [] }
+def lcSpend (txid : Txid) (prev : OutPoint) (envs : List Envelope) (outs : List TxOut) : Tx :=
+  { txid := txid, inputs := [{ prev := prev, taproot := true, confHeight := some 0, pushes := [] }], outputs := outs, envelopes := envs, artifact := none, size := 0 }
+def lcB0 : Block := { height := 0, time := 0, hash := 100, minimumRune := 0, txs := [lcCb 1 5000000000] }
+def lcB1 : Block := { height := 1, time := 0, hash := 101, minimumRune := 0, txs := [lcCb 2 5000000000, lcSpend 3 ⟨1, 0⟩ [lcEnv] [lcOut 5000000000]] }
+def lcB2 : Block := { height := 2, time := 0, hash := 102, minimumRune := 0, txs := [lcCb 4 5000000000, lcSpend 5 ⟨3, 0⟩ [] [lcOut 5000000000]] }
+def lcB3 : Block := { height := 3, time := 0, hash := 103, minimumRune := 0, txs := [lcCb 6 5000000000, lcSpend 7 ⟨5, 0⟩ [] []] }
+def lcChain : List Block := [lcB0, lcB1, lcB2, lcB3]
+
+def lcSeq0 (r : Outcome (State × List Event)) : Option (Nat × Option SatPoint) :=
+  match r with
+  | .ok (st, _) => some (st.entries.length, AL.get st.seq2sp 0)
+  | _ => none
+
+example : InsLift.InsChain lcChain ∧ InsLift.EnvChain lcChain ∧
+    lcSeq0 (run lcCfg lcChain) = some (1, some ⟨OutPoint.null, 0⟩) ∧ InsLift.chainCount lcCfg lcChain = 1 := by
+  refine ⟨⟨⟨by decide, by decide, by decide⟩, ?_, by decide⟩, ⟨by decide, ?_⟩, by decide, by decide⟩
+  · intro b hb
+    simp only [lcChain, List.mem_cons, List.not_mem_nil, or_false] at hb
+    rcases hb with rfl | rfl | rfl | rfl <;> exact ⟨_, _, rfl, by decide⟩
+  · intro b hb
+    simp only [lcChain, List.mem_cons, List.not_mem_nil, or_false] at hb
+    rcases hb with rfl | rfl | rfl | rfl <;>
+      (intro cb hcb; simp only [lcB0, lcB1, lcB2, lcB3, List.head?_cons, Option.some.injEq] at hcb; subst hcb; decide)
 
 end Ord.Index.Insloc
